@@ -21,6 +21,12 @@ Readings chosen (where the property text leaves room):
   score->performance map takes every unique matched score onset (of a non-ornament note when
   remove_ornaments) to the mean performed onset of its notes and is linear between neighbours;
   the performance->score map is checked when these means are strictly increasing.
+* ids in an alignment entry that are not strings (round 6): `to_matched_score` passes the score id of a match through `str`
+  (rewriting the caller's list in place) and looks the performance id up as it is, `get_matched_notes` does the opposite.  An
+  integer therefore "exists" on the side the function normalises when its decimal string is an id of that table; the oracle
+  judges to_matched_score on alignments whose matches carry a string performance id and a string-or-integer score id, and
+  get_matched_notes on those with a string score id and a string-or-integer performance id; every other form (None, missing
+  keys, unlabelled entries, integers on the other side) is compared with the model only (Model/CodecAl.lean).
 * the performed duration used is `duration_sec` of the performance note array.
 * "against the same score": the score object AS IT IS at the time of the call.  A score object may have a past - it was
   read (maps, note arrays ...) while it was built, it was encoded before with this or another performance, it was
@@ -61,7 +67,8 @@ from core import Eval
 PROPERTY = "C18"
 DRIVER = "drv_c18"
 PROPS = ["PartituraModel.Props.C18", "PartituraModel.Props.C18Real", "PartituraModel.Props.C18Pipeline",
-         "PartituraModel.Props.C18Hist", "PartituraModel.Props.C18Ext", "PartituraModel.Props.C18Src", "PartituraModel.Props.C18Float"]
+         "PartituraModel.Props.C18Hist", "PartituraModel.Props.C18Ext", "PartituraModel.Props.C18Src", "PartituraModel.Props.C18Float",
+         "PartituraModel.Props.C18Groups", "PartituraModel.Props.C18Al", "PartituraModel.Props.C18Seq"]
 TRUSTED = [
     "numpy argsort(kind='mergesort') / lexsort are stable; np.unique = sorted distinct values; np.split; np.maximum.accumulate",
     "scipy interp1d linear with fill_value='extrapolate' (knots sorted stably by x, segment by searchsorted-left clipped to 1..n-1); "
@@ -85,7 +92,12 @@ TRUSTED = [
     "np.isclose in get_unique_seq (repair C18-11) is modelled over exact rationals: |a - b| <= 1e-8 + 1e-5 |b| (the two numbers are "
     "numpy's defaults, regenerated into Gen/C18Lits on every run)",
     "harness/translate_c18.py (ast over the live performance_codec.py / generic.py): the scale / rescale bodies, constants, column "
-    "names, list literals and defaults it emits are what the source says (Props/C18Src ties the model to them)",
+    "names, list literals, defaults and (round 6) the keys each alignment function passes through str() / looks up as they are, "
+    "are what the source says (Props/C18Src ties the model to them: source_id_forms, source_column_names)",
+    "Python / numpy semantics the alignment-form model assumes (Model/CodecAl): str(int) is the decimal numeral, str(None) = 'None'; a "
+    "dict keyed by numpy strings finds a str key and no int / None key; `array_of_strings == non_string` matches nothing; a missing "
+    "dict key raises KeyError; a missing field of a structured array raises (Model/CodecSeq decodeFullC); np.mean of an empty "
+    "selection is NaN (uniqueSeq / toOnsetwise answer `none`)",
 ]
 PARTIAL = [
     "duration_roundtrip_partial / matched_row_duration_partial / the duration clause of performance_roundtrip: performed durations "
@@ -96,12 +108,17 @@ PARTIAL = [
     "returned by the encoder; for snote_ids in another order decode_user_ids states exactly what is returned (values in sorted "
     "order, labels in the given order) - outside the property (its parameters come from encode_performance)",
     "a user-supplied tempo callable is covered by timing_roundtrip for any positive beat-period sequence; positivity is proved for the "
-    "two built-in methods only (at any input_onsets, for the built-in grouping; a caller's unique_onset_idxs is modelled and compared "
-    "for coarser groupings, not covered by a theorem)",
+    "two built-in methods only - at any input_onsets, for the built-in grouping and (round 6, Props/C18Groups) for every caller-given "
+    "unique_onset_idxs of non-empty groups whose mean score onsets increase in the order listed (groups_order_needed: listed "
+    "backwards the same groups give negative beat periods, so the condition stays)",
     "rounding inside the binary64 / float32 ARITHMETIC (the float32 timing column, float32 group means, z*std + mean) is outside the "
     "theorems (exact rationals / reals) and bounded by the oracle's tolerance on every case; only the storage roundings named in "
     "TRUSTED are proved",
     "the VALUES of the feature columns of include_score_markings=True are judged by the oracle against compute_note_array, not modelled",
+    "alignment entries whose ids are neither strings, integers nor None (floats, numpy scalars), labels that are not strings, and "
+    "negative indices in a caller's unique_onset_idxs are outside the model (Model/CodecAl, pickGroups); that to_matched_score and "
+    "get_matched_notes pass OPPOSITE sides of an entry through str() (id_sides_differ) is mirrored, not judged - the property "
+    "does not say what a non-string id names",
 ]
 RULE = ("seeded random single-part scores (1-3 voices, chords, ties, grace notes, grace notes at the very end of the part, optional "
         "pickup, divisions 1..24 and rare large divisions; built plainly or with read-only views interleaved - gen_score `warm`; "
@@ -124,7 +141,12 @@ RULE = ("seeded random single-part scores (1-3 voices, chords, ties, grace notes
         "coarser unique_onset_idxs (negative, unsorted, third-of-a-beat score onsets; ties, collisions, non-monotone performed onsets; "
         "arrays of different lengths), direct inputs of the zero-order interpolator, get_unique_onset_idxs(eps, "
         "return_unique_onsets), notewise_to_onsetwise / onsetwise_to_notewise (partitions, overlapping and out-of-range groups), "
-        "time-map cases, exhaustive velocities 1..127 and random scale/rescale rows.  distinct = distinct structural key "
+        "time-map cases, exhaustive velocities 1..127 and random scale/rescale rows; (round 6) alignments of any FORM on direct "
+        "tables (entries without label, matches without score_id / performance_id, ids that are strings, integers whose str() "
+        "names a note or not, None; numeric-looking and 'None' note ids) with to_matched_score twice on the list it rewrites and "
+        "get_matched_notes before / after, parameter arrays with dropped / extra / reordered fields decoded under every "
+        "normalisation, get_unique_seq on its own (both last_time branches, inferred and caller-given groups, empty group, index "
+        "too far, arrays of different length, return_diff), the onset-wise helpers on 2-D and structured arrays.  distinct = distinct structural key "
         "(kind, #notes, #groups, flags, history length, structural pattern, normalisation, method); non-trivial = at least two onset "
         "groups matched")
 LEVEL_TEXT = ("Lean theorems over exact rationals/reals for the whole pipeline: positivity of both built-in tempo curves for any performed "
@@ -135,7 +157,10 @@ LEVEL_TEXT = ("Lean theorems over exact rationals/reals for the whole pipeline: 
               "(performance_roundtrip, performance_roundtrip_matched_ids with the weakest condition on ids), decode_performance with all "
               "it returns (pitch clip, alignment, default and user-given snote_ids), the column dispatch of include_score_markings, "
               "normalisations, matched tables and time maps from an alignment (monotone when the performed onsets are), the helpers "
-              "get_unique_onset_idxs(eps) / notewise<->onsetwise, proved bounds for the float32 storage of the logarithmic columns, "
+              "get_unique_onset_idxs(eps) / notewise<->onsetwise (1-D, 2-D, structured), get_unique_seq on its own, both tempo curves on any "
+              "caller-given grouping with increasing mean onsets, alignments of any form (missing keys, integer / None ids, the in-place "
+              "rewriting of the caller's list: matched_table_any_form, matched_score_twice, matched_notes_after_matched_score), the column "
+              "dispatch of decode_performance across normalisations (encoded_columns_decode), proved bounds for the float32 storage of the logarithmic columns, "
               "articulation and velocity, and the same round trip after "
               "any history of in-place edits and earlier uses of one score object (history_roundtrip, history_fresh); tied to the Python "
               "code by a translator that regenerates scale/rescale bodies, constants, column names and defaults from the live source "
@@ -473,6 +498,54 @@ def gen_tables(rng):
     return {"k": "tables", "score": score, "perf": perf, "al": al}
 
 
+def gen_alforms(rng):
+    """round 6: alignments of any FORM on direct note-array tables - entries without `label`, matches without `score_id` /
+    `performance_id`, ids that are strings, integers (whose str() may or may not name a note) or None"""
+    ns, npf = rng.randint(1, 6), rng.randint(1, 6)
+    pool_s = ["s0", "s1", "3", "-2", "None", "7", "s2", "12"]
+    pool_p = ["p0", "p1", "5", "-4", "None", "3", "p2", "9"]
+    rng.shuffle(pool_s)
+    rng.shuffle(pool_p)
+    sids = [rng.choice(pool_s[:ns]) if rng.random() < 0.15 else pool_s[i] for i in range(ns)]
+    pids = [rng.choice(pool_p[:npf]) if rng.random() < 0.15 else pool_p[i] for i in range(npf)]
+    score = [{"id": sids[i], "odiv": rng.randint(0, 4), "pitch": rng.randint(58, 62), "so": 0.0, "sd": rng.choice([0, 1, 2]) / 2} for i in range(ns)]
+    for sc in score:
+        sc["so"] = sc["odiv"] / 2
+    perf = [{"id": pids[i], "on": _dy(rng, 0, 256, 64), "dur": _dy(rng, 5, 64, 64), "vel": rng.randint(1, 127), "pitch": 60} for i in range(npf)]
+    wild = rng.random() < 0.6     # else: every match complete and with string ids (the oracle judges those)
+
+    def ident(pool, known):
+        x = rng.choice(known) if rng.random() < 0.8 else rng.choice(pool)
+        r = rng.random()
+        if not wild or r < 0.45:
+            return x
+        if r < 0.8:
+            try:
+                return int(x)          # an integer whose str() names a note
+            except ValueError:
+                return rng.choice([0, 3, -2, 5, 41])
+        if r < 0.9:
+            return None
+        return x
+
+    al = []
+    for _ in range(rng.randint(0, 7)):
+        lab = rng.choice(["match", "match", "match", "match", "insertion", "deletion", "ornament"])
+        a = {"label": lab}
+        if lab != "insertion" or rng.random() < 0.2:
+            a["score_id"] = ident(pool_s, sids)
+        if lab != "deletion" or rng.random() < 0.2:
+            a["performance_id"] = ident(pool_p, pids)
+        if wild and lab == "match" and rng.random() < 0.12:
+            del a[rng.choice(["score_id", "performance_id"])]
+        if lab != "match" and rng.random() < 0.3:
+            a.pop(rng.choice(["score_id", "performance_id"]), None)
+        if wild and rng.random() < 0.05:
+            del a["label"]
+        al.append(a)
+    return {"k": "alforms", "score": score, "perf": perf, "al": al, "wild": wild}
+
+
 def gen_scale(rng):
     m = rng.randint(1, 8)
     r = rng.random()
@@ -595,8 +668,38 @@ def gen_helpers(rng):
         gkind = "outside"
     vals = [_dy(rng, -64, 64, 8) for _ in range(k + (1 if gkind == "overlap" else 0))]
     wvals = [_dy(rng, -64, 64, 8) for _ in range(len(groups) - (1 if rng.random() < 0.08 else 0))]
-    return {"k": "helpers", "ks": ks, "lo": _dy(rng, 1, 64, 16), "hi": _dy(rng, 1, 64, 16), "qs": qs, "ss": ss, "mmode": mmode,
-            "eps": eps, "ons": ons, "groups": groups, "gkind": gkind, "vals": vals, "wvals": wvals}
+    out = {"k": "helpers", "ks": ks, "lo": _dy(rng, 1, 64, 16), "hi": _dy(rng, 1, 64, 16), "qs": qs, "ss": ss, "mmode": mmode,
+           "eps": eps, "ons": ons, "groups": groups, "gkind": gkind, "vals": vals, "wvals": wvals}
+    # round 6: two-dimensional / structured inputs of the same helpers (1-3 columns), and get_unique_seq on its own:
+    # onsets with offsets (durations 0 = notes without duration, so that `last_time` takes both branches), the groups inferred
+    # or given by the caller (the partition above when it fits, rarely an index too far or an empty group), return_diff
+    ncol = rng.randint(1, 3)
+    out["cols"] = [[_dy(rng, -64, 64, 8) for _ in vals] for _ in range(ncol)]
+    out["wcols"] = [[_dy(rng, -64, 64, 8) for _ in wvals] for _ in range(ncol)]
+    out["structured"] = rng.random() < 0.4
+    m = rng.randint(0, 7) if rng.random() < 0.1 else len(ons)
+    uo = (ons * 2)[:m]
+    durs = [rng.choice([0, 0, 0.25, 0.5, 1.0, 2.0]) for _ in uo]
+    if rng.random() < 0.35:
+        durs = [0 if x == max(uo) else d_ for x, d_ in zip(uo, durs)]       # the last onset carries only notes without duration
+    r = rng.random()
+    if r < 0.5 or not uo:
+        uidx = None
+    else:
+        cells = list(range(len(uo)))
+        rng.shuffle(cells)
+        uidx, i = [], 0
+        while i < len(cells):
+            j = min(len(cells), i + rng.choice([1, 1, 2, 3]))
+            uidx.append(cells[i:j])
+            i = j
+        if r < 0.56:
+            uidx[-1] = uidx[-1] + [len(uo) + 1]
+        elif r < 0.62:
+            uidx.insert(rng.randrange(len(uidx) + 1), [])
+    out["useq"] = {"ons": uo, "offs": [a + b for a, b in zip(uo, durs)][:len(uo) - (1 if (uo and rng.random() < 0.05) else 0)],
+                   "idx": uidx, "diff": rng.random() < 0.5}
+    return out
 
 
 def cases(rng, tier):
@@ -623,6 +726,9 @@ def cases(rng, tier):
     for _ in range({"quick": 80, "thorough": 1500, "search": 1500}[tier]):
         sub = random.Random(rng.getrandbits(48))
         yield gen_helpers(sub)
+    for _ in range({"quick": 150, "thorough": 3000, "search": 3000}[tier]):
+        sub = random.Random(rng.getrandbits(48))
+        yield gen_alforms(sub)
 
 
 # ---------------------------------------------------------------------------------- helpers
@@ -1007,6 +1113,132 @@ def eval_tables(ev, na, pna, al, part_or_na, perf_or_na, judge_ms=True):
     return ms, sids
 
 
+# ---------------------------------------------------------------------------------- alignments of any form (round 6)
+def _idtok(a, key):
+    if key not in a:
+        return "-"
+    v = a[key]
+    if v is None:
+        return "N"
+    if isinstance(v, str):
+        return "S " + W.s(v)
+    return "I %d" % v
+
+
+def _idfmt(a, key):
+    if key not in a:
+        return "-"
+    v = a[key]
+    if v is None:
+        return "N"
+    if isinstance(v, str):
+        return "S:" + v
+    if isinstance(v, (int, np.integer)) and not isinstance(v, bool):
+        return "I:%d" % v
+    return "?" + repr(v)
+
+
+def alx_tokens(al):
+    out = [str(len(al))]
+    for a in al:
+        out += [W.opt(W.s, a.get("label")), _idtok(a, "score_id"), _idtok(a, "performance_id")]
+    return out
+
+
+def alx_fmt(al):
+    return [[("L:" + a["label"]) if "label" in a else "-", _idfmt(a, "score_id"), _idfmt(a, "performance_id")] for a in al]
+
+
+def eval_alforms(ev, d, info):
+    """to_matched_score / get_matched_notes on an alignment of any form: the table (or the exception), the alignment the
+    call LEAVES BEHIND (score ids of the matches rewritten to str in place, up to the entry that raised), the same call
+    once more on that alignment, get_matched_notes before and after.  Oracle (matched-table clause): when every entry is
+    labelled and every match carries two string ids, the table pairs exactly the matches whose ids exist on both sides -
+    whatever keys the other entries carry."""
+    import warnings
+    import partitura.musicanalysis.performance_codec as pc
+
+    na, pna, al = score_array(d["score"]), perf_array(d["perf"]), d["al"]
+    base = score_tokens(na) + perf_tokens(pna)
+    si, pi = first_index(na["id"]), first_index(pna["id"])
+    plain = all("label" in a for a in al) and all(
+        isinstance(a.get("score_id"), str) and isinstance(a.get("performance_id"), str) for a in al if a["label"] == "match")
+    for a in al:
+        for f in (["nolabel"] if "label" not in a else []) + [
+                key[0] + kind for key in ("score_id", "performance_id") if a.get("label") == "match"
+                for kind in [("missing" if key not in a else "none" if a[key] is None else "str" if isinstance(a[key], str) else "int")]]:
+            info["alf_" + f] = info.get("alf_" + f, 0) + 1
+
+    def ms_call(al_in, tag):
+        a1 = [dict(a) for a in al_in]
+        with warnings.catch_warnings():
+            warnings.simplefilter("ignore")
+            r, e = call(pc.to_matched_score, na, pna, a1)
+        ev.requests.append("msa " + " ".join(base + alx_tokens(al_in)))
+        if e is not None:
+            rows = "err"
+            info["alf_ms_err"] = info.get("alf_ms_err", 0) + 1
+        else:
+            ms, sids = r
+            rows = [[si.get(str(sids[k]), -1), float(ms["onset"][k]), float(ms["duration"][k]), int(ms["pitch"][k]),
+                     float(ms["p_onset"][k]), float(ms["p_duration"][k]), int(ms["velocity"][k])] for k in range(len(ms))]
+        ev.impl.append(("@approx", [rows, alx_fmt(a1)], T32))
+        if a1 != al_in:
+            info["alf_rewritten"] = info.get("alf_rewritten", 0) + 1
+        return r, e, a1
+
+    def mn_call(al_in):
+        with warnings.catch_warnings():
+            warnings.simplefilter("ignore")
+            r, e = call(pc.get_matched_notes, na, pna, [dict(a) for a in al_in])
+        ev.requests.append("mna " + " ".join(base + alx_tokens(al_in)))
+        if e is not None:
+            ev.impl.append("err")
+            info["alf_mn_err"] = info.get("alf_mn_err", 0) + 1
+            return None
+        rows = [(int(a), int(b)) for a, b in np.asarray(r).reshape(-1, 2)]
+        ev.impl.append(W.f_list(lambda p: W.f_tuple(W.f_int(p[0]), W.f_int(p[1])), rows))
+        return rows
+
+    r, e, left = ms_call(al, "first")
+    ms_call(left, "again")
+    mn = mn_call(al)
+    mn_call(left)
+    if plain:
+        info["alf_plain"] = 1
+    # reading (module docstring): an integer names the note whose id is its decimal string, on the side the function passes
+    # through str() - score ids for to_matched_score, performance ids for get_matched_notes
+    matches = [a for a in al if a.get("label") == "match"]
+    labelled = all("label" in a for a in al)
+    both = all("score_id" in a and "performance_id" in a for a in matches)
+
+    def isid(v):
+        return isinstance(v, (str, int)) and not isinstance(v, bool)
+
+    ms_judged = labelled and both and all(isinstance(a["performance_id"], str) and isid(a["score_id"]) for a in matches)
+    mn_judged = labelled and both and all(isinstance(a["score_id"], str) and isid(a["performance_id"]) for a in matches)
+    exp = expected_pairs(na, pna, al) if (ms_judged or mn_judged) else None
+    if mn_judged:
+        info["alf_mn_judged"] = 1
+        if mn is None:
+            ev.oracle.append("matched-table: get_matched_notes raised on an alignment whose matches all carry both ids")
+        elif sorted(mn) != sorted(exp):
+            ev.oracle.append("matched-table: get_matched_notes returned %r, the matches with both ids present are %r" % (mn[:8], exp[:8]))
+    if ms_judged:
+        info["alf_ms_judged"] = 1
+        dangling = any(str(a["score_id"]) in si and a["performance_id"] not in pi for a in matches)
+        if not dangling:
+            if e is not None:
+                ev.oracle.append("matched-table: to_matched_score raised %s: %s on an alignment whose matches all carry both ids" % (type(e).__name__, e))
+            else:
+                ms, sids = r
+                got = sorted((str(sids[k]), float(ms["p_onset"][k]), int(ms["velocity"][k])) for k in range(len(ms)))
+                want = sorted((str(na["id"][i]), float(pna["onset_sec"][j]), int(pna["velocity"][j])) for i, j in exp)
+                if got != want:
+                    ev.oracle.append("matched-table: to_matched_score rows %r are not the matches with both ids present %r" % (got[:6], want[:6]))
+    return len(al)
+
+
 # ---------------------------------------------------------------------------------- codec
 def group_lists(uidx):
     return W.f_list(lambda g: W.f_list(W.f_int, g), [[int(i) for i in g] for g in uidx])
@@ -1300,6 +1532,69 @@ def eval_decode_table(ev, na, d):
     out = [[str(n["id"]), float(n["note_on"]), float(n["note_off"] - n["note_on"]), int(n["velocity"])] for n in res.notes]
     out = [[a, (None if not math.isfinite(b) else b), (None if not math.isfinite(c) else c), v] for a, b, c, v in out]
     ev.impl.append(("@approx", out, T32 * 4))
+
+
+def eval_decode_columns(ev, na, d, info):
+    """round 6: the COLUMN dispatch of decode_performance - a parameter array with the fields encode_performance builds for one
+    normalisation (rarely one field dropped, an unrelated field added), decoded under any of the five normalisations: refused
+    exactly when a field it reads is missing (`velocity`, `beat_period`, `timing`, `articulation_log`, the normalisation's
+    `param_names`), other fields ignored.  Logarithmic columns get one value per score onset (the decoder averages the stored
+    logarithms of an onset group, the model their powers); every column is positive so that no duration is negative."""
+    import partitura.musicanalysis.performance_codec as pc
+
+    r = random.Random(len(na) * 613 + len(d["al"]) * 29 + len(d["perf"]) * 3 + 1)
+    ids = [str(x) for x in na["id"]]
+    if not ids:
+        return
+    enc, dec = r.choice(NORMS), r.choice(NORMS)
+    if r.random() < 0.4:
+        dec = enc
+    elif r.random() < 0.3:
+        dec = "beat_period"
+    fields = ["beat_period", "velocity", "timing", "articulation_log"] + ([] if enc == "beat_period" else list(pc.TEMPO_NORMALIZATION[enc]["param_names"]))
+    shape = "as_encoded"
+    x = r.random()
+    if x < 0.25:
+        fields.remove(r.choice(fields))
+        shape = "dropped"
+    elif x < 0.4:
+        fields.insert(r.randrange(len(fields) + 1), "pedal")
+        shape = "extra"
+    elif x < 0.5:
+        r.shuffle(fields)
+        shape = "reordered"
+    n = len(ids)
+    params = np.zeros(n, dtype=[(nm, "f4") for nm in fields])
+    od = [int(v) for v in na["onset_div"]]
+    for nm in fields:
+        if nm in ("beat_period_log", "beat_period_ratio_log"):
+            params[nm] = [((o * 3) % 5 - 2) / 2 for o in od]
+        elif nm == "velocity":
+            params[nm] = [r.randint(0, 140) / 127 for _ in range(n)]
+        elif nm == "timing":
+            params[nm] = [r.randint(-64, 64) / 256 for _ in range(n)]
+        elif nm == "articulation_log":
+            params[nm] = [r.randint(-2, 2) for _ in range(n)]
+        else:
+            params[nm] = [r.randint(16, 256) / 128 for _ in range(n)]
+    res, e = call(pc.decode_performance, _Table(na), params, beat_normalization=dec, return_alignment=True)
+    need = ["velocity", "beat_period", "timing", "articulation_log"] + ([] if dec == "beat_period" else list(pc.TEMPO_NORMALIZATION[dec]["param_names"]))
+    have = all(f in fields for f in need)
+    prow = [str(n)]
+    ratio32 = pow2(params["articulation_log"]) if "articulation_log" in fields else [1.0] * n
+    for k in range(n):
+        cols = param_cols(dec, params, k) if have else []
+        prow += ["x", q(params["timing"][k]) if "timing" in fields else "0", q(ratio32[k]), q(params["velocity"][k]) if "velocity" in fields else "0",
+                 W.lst(q, cols)]
+    ev.requests.append("decc %s %s %s - %s" % (dec, W.lst(W.s, fields), " ".join(score_tokens(na)), " ".join(prow)))
+    ev.impl.append("err" if e is not None else ("@approx", notes_full(res), T32 * 8))
+    info["decc_" + shape] = 1
+    info["decc_" + ("refused" if e is not None else "decoded")] = 1
+    if e is not None and have:
+        ev.oracle.append("decode_performance(beat_normalization=%s) raised %s: %s on a parameter array with the fields %r" % (
+            dec, type(e).__name__, e, fields))
+    if enc == dec and shape in ("as_encoded", "reordered", "extra") and e is not None:
+        ev.oracle.append("decode_performance refuses the columns encode_performance builds for %s" % enc)
 
 
 def notes_full(res):
@@ -1625,6 +1920,51 @@ def eval_helpers(ev, d, info):
     ev.requests.append("o2n %s %s" % (W.lst(q, d["wvals"]), gt))
     ev.impl.append("err" if e is not None else ("@approx", [float(v) for v in r], 1e-12))
     info["groups_" + d["gkind"]] = 1
+    if "cols" not in d:
+        return
+    # round 6: the same helpers on two-dimensional arrays and on structured arrays (the `except TypeError` branch)
+    import warnings
+
+    def as_array(cols, n):
+        if d["structured"]:
+            return np.array([tuple(c[i] for c in cols) for i in range(n)], dtype=[("f%d" % j, "f8") for j in range(len(cols))])
+        return np.array(cols, dtype=float).T.reshape(n, len(cols))
+
+    def columns(r, ncol):
+        if d["structured"]:
+            return [[float(v) for v in r["f%d" % j]] for j in range(ncol)]
+        return [[float(v) for v in np.asarray(r)[:, j]] for j in range(ncol)]
+
+    for req, fn, cols in (("n2o2", pc.notewise_to_onsetwise, d["cols"]), ("o2n2", pc.onsetwise_to_notewise, d["wcols"])):
+        n = len(cols[0])
+        with warnings.catch_warnings():
+            warnings.simplefilter("ignore")
+            r, e = call(lambda: columns(fn(as_array(cols, n), gs), len(cols)))
+        ev.requests.append("%s %s %s" % (req, W.lst(lambda c: W.lst(q, c), cols), gt))
+        bad = e is not None or any(not math.isfinite(v) for c in r for v in c)
+        ev.impl.append("err" if bad else ("@approx", r, 1e-12))
+        info["h2_" + ("struct" if d["structured"] else "2d")] = info.get("h2_" + ("struct" if d["structured"] else "2d"), 0) + 1
+    # get_unique_seq
+    u = d["useq"]
+    ons, offs = np.array(u["ons"], dtype=float), np.array(u["offs"], dtype=float)
+    idx = None if u["idx"] is None else [np.array(g, dtype=int) for g in u["idx"]]
+    with warnings.catch_warnings():
+        warnings.simplefilter("ignore")
+        r, e = call(pc.get_unique_seq, ons, offs, unique_onset_idxs=idx, return_diff=u["diff"])
+    ev.requests.append("useq %s %s %s %s" % (W.lst(q, u["ons"]), W.lst(q, u["offs"]),
+                                            "-" if u["idx"] is None else W.lst(lambda g: W.lst(W.i, g), u["idx"]), W.b(u["diff"])))
+    if e is not None or not all(math.isfinite(float(v)) for v in r["u_onset"]):
+        ev.impl.append("err")
+        info["useq_err"] = info.get("useq_err", 0) + 1
+    else:
+        uo = [float(v) for v in r["u_onset"]]
+        ev.impl.append(("@approx", [uo, float(r["total_dur"]), [[int(i) for i in g] for g in r["unique_onset_idxs"]],
+                                    [float(v) for v in r["diff_u_onset"]] if "diff_u_onset" in r else "-"], 1e-12))
+        if ("diff_u_onset" in r) != bool(u["diff"]):
+            ev.oracle.append("get_unique_seq(return_diff=%r) returned keys %r" % (u["diff"], sorted(r)))
+        last = "grace" if u["ons"] and np.isclose(max(u["ons"]), max(u["offs"])) else "offset"
+        info["useq_last_" + last] = info.get("useq_last_" + last, 0) + 1
+        info["useq_" + ("given" if idx is not None else "inferred")] = info.get("useq_" + ("given" if idx is not None else "inferred"), 0) + 1
 
 
 def evaluate(d):
@@ -1699,6 +2039,13 @@ def evaluate(d):
         ev.info = dict(info, helpers=1)
         ev.key = "helpers k%d m%d%s o%d %s%d" % (len(d["ks"]), len(d["ss"]), d["mmode"], len(d["ons"]), d["gkind"], len(d["groups"]))
         return ev
+    if k == "alforms":
+        info = {}
+        n = eval_alforms(ev, d, info)
+        ev.info = dict(info, alforms=1)
+        ev.key = "alforms %d/%d/%d %s %s" % (len(d["score"]), len(d["perf"]), n, "w" if d.get("wild") else "p",
+                                             ",".join(sorted(x[4:] for x in info if x.startswith("alf_") and x not in ("alf_plain",)))) if n else None
+        return ev
     if k == "tables":
         na = score_array(d["score"])
         pna = perf_array(d["perf"])
@@ -1706,6 +2053,7 @@ def evaluate(d):
         eval_decode_table(ev, na, d)
         variant = eval_decode_full(ev, na, d)
         ev.info = {"decf": variant}
+        eval_decode_columns(ev, na, d, ev.info)
         ev.key = "tables%d/%d/%d" % (len(na), len(pna), len(d["al"]))
         return ev
     # ---- codec
@@ -1874,6 +2222,11 @@ def distribution(descs, results):
                             "length_mismatch": dict(Counter(d.get("cut") for d in descs if d.get("k") == "arrays" and d.get("cut"))),
                             "encode_tempo_refused": tot("enct_err"), "tempo_with_caller_groups": tot("tat_idx"),
                             "tempo_with_input_onsets": tot("tat_inp")},
+            "decode_columns": dict((b, tot("decc_" + b)) for b in ("as_encoded", "dropped", "extra", "reordered", "refused", "decoded")),
+            "helpers_2d": {"two_dimensional": tot("h2_2d"), "structured": tot("h2_struct")},
+            "get_unique_seq": dict((b, tot("useq_" + b)) for b in ("err", "last_grace", "last_offset", "given", "inferred")),
+            "alignment_forms": dict((b, tot("alf_" + b)) for b in (
+                "plain", "ms_judged", "mn_judged", "nolabel", "sstr", "sint", "snone", "smissing", "pstr", "pint", "pnone", "pmissing", "ms_err", "mn_err", "rewritten")),
             "zero_order_queries": dict((b, tot("zh_" + b)) for b in ("single", "below", "above", "knot", "between")),
             "onsetwise_group_shapes": dict((g, tot("groups_" + g)) for g in ("partition", "overlap", "outside")),
             "monotonize_without_abscissae": dict(Counter(d.get("mmode") for d in descs if d.get("k") == "helpers")),
